@@ -99,6 +99,18 @@ MUTANTS = [
       "| .hamiltonian => { s with ctx := { s.ctx with lastPos := positions s.atoms.rows, lastMom := momenta s.atoms.rows } }",
       "| .hamiltonian => { s with ctx := { s.ctx with lastPos := positions s.atoms.rows } }",
       ["C03"], "HamiltonianCanonical.validate_simulation remembers the positions but not the momenta"),
+    M("machine-notify-flat-again", "Machine", "QModel/Machine.lean",
+      "    notifyParts refs (m :: ns) (added.drop n) removed (notifyRefs refs (added.take n) [] h)",
+      "    notifyRefs refs added removed h",
+      ["C05", "C03"], "several inserted particles are notified in ONE call again (the flat notification of before the repair)"),
+    M("machine-sizes-not-recorded", "Machine", "QModel/Machine.lean",
+      "           addedSizes := c.addedSizes ++ [idx.length], delta := c.delta + 1 }",
+      "           addedSizes := c.addedSizes, delta := c.delta + 1 }",
+      ["C05"], "recordAdded forgets the size of the inserted particle"),
+    M("machine-notify-parts-removed-first", "Machine", "QModel/Machine.lean",
+      "    notifyParts refs (m :: ns) (added.drop n) removed (notifyRefs refs (added.take n) [] h)",
+      "    notifyParts refs (m :: ns) (added.drop n) [] (notifyRefs refs (added.take n) removed h)",
+      ["C05"], "the removed indices travel with the FIRST per-particle notification"),
     M("machine-added-indices-from-template-size", "Machine", "QModel/Machine.lean",
       "  let moving := addMoving new s.atoms.rows.length\n  let res :=",
       "  let moving := addMoving s.ctx.template s.atoms.rows.length\n  let res :=",
